@@ -24,7 +24,7 @@ def main():
             print("property verdict on the implementation:", v or "holds")
             try:
                 from harness.driver import run_model
-                m = run_model([mod.model_case(case)])[0]
+                m = run_model([mod.model_input(case, obs) if hasattr(mod, "model_input") else mod.model_case(case)])[0]
                 print("model:", json.dumps(m, ensure_ascii=False)[:3000])
                 print("correspondence:", mod.compare(case, obs, m) or "agrees")
             except Exception as e:
